@@ -676,3 +676,5 @@ LEVEL_TEXT = ("Machine-checked Lean 4 theorems (C01_*) about an executable model
 LEVEL_NOTE = ("With the default `DLM . SPACE` item of lasio.LASFile() in ~Version (Props/C01FileDlm.lean, hypothesis DlmOK instead of 'no DLM item'): C03_file_dlm, C01_file_dlm(+_wrapYes, _unwrapped), C11_file_fixed_point_dlm / C11_file_iterate_dlm (all four steering values equal), C12_file_dlm; counter-examples DLM COMMA over blank-separated data (known finding dlm-not-space), DLM FOO (KeyError); two DLM items are ignored by the reader. WHOLE FILE (Props/C01File.lean): C01_file — Tf.readFull of the text of one write call (header lines ++ ~A line ++ body) returns the five header sections of C03_file, all four steering values (vers, WRAP, NULL, no DLM) and exactly one data window handed to readData; C01_file_wrapYes / C01_file_unwrapped give its curves as the written matrix; C01_file_samples restates the property (same number of curves and rows, NaN iff NaN outside the index, index never nulled, finite samples within half a unit of the last digit); C01_file_writeObj connects to Wo.writeObj. Not covered there: a DLM item, lines after the data section, text columns. Theorems are about the writer model; the reader half of the round trip is covered here by the oracle on explored inputs only "
               "(its model and theorems are C02/C05/C09). model = code holds on the explored inputs. Trusted: Lean kernel, driver compilation, "
               "CPython '%f' / float() / textwrap as modelled and compared on every run.")
+
+RULE = RULE + ("; ALSO (fifth session): directed stream `exponent` (%.4e / %.7E / %.3e, negative exponents next to negative values, a first row without a hyphen, wrapped and unwrapped, both engines; oracle only) and the integer conversions %d / %i / %6d (outside the model: the table must still be written, NaN through the NULL marker)")
